@@ -118,6 +118,11 @@ def payload_cases(r, tier):
         for code in (0, 9):
             items = [("P", "fdstage p0 w%d | fdstage p1 x%d" % (N, code)), ("P", "fdstage q0 P S$?")]
             cases.append(fdsess.make_case(items, meta={"payload": N, "noreader": True}))
+        # … behind 1..3 silent relays: every writer upstream must still be woken up (EPIPE / SIGPIPE), none may be left blocked
+        for relays in ((1, 2, 3) if tier == "quick" else (1, 2, 3, 4)):
+            st = ["fdstage p0 w%d" % N] + ["fdstage p%d c" % (i + 1) for i in range(relays)] + ["fdstage p%d x7" % (relays + 1)]
+            items = [("P", " | ".join(st)), ("P", "fdstage q0 P S$?")]
+            cases.append(fdsess.make_case(items, meta={"payload": N, "noreader": True}))
     return cases
 
 
